@@ -20,9 +20,11 @@ skipped (that is C01's business) and counted.
 import datetime
 import glob
 import importlib
+import json
 import os
 import random
 import re
+import subprocess
 import sys
 
 sys.path.insert(0, os.path.dirname(os.path.abspath(__file__)))
@@ -39,7 +41,9 @@ RULE = ('inputs per relation: valid constituent numbers (corpus of the constitue
         'padding variants, each with every spelling of the country prefix (upper, lower, mixed, with space) and, for '
         'the cross-country sample, with foreign prefixes. Inputs that themselves start with the country prefix are '
         'not prefixed again. Non-trivial = distinct (relation, input) pairs where at least one side accepts; every '
-        'comparison counts as a case.')
+        'comparison counts as a case. Histories: every ordered pair of calls of a country family (wrapper calls with '
+        'the member, alias and lower-case prefixes, IBANs that the national validator rejects) in a fresh interpreter, '
+        'each outcome compared with the same call alone in a fresh interpreter.')
 
 # ground truth: member state code used as VAT prefix -> module that validates its VAT numbers
 EU_MEMBERS = {
@@ -351,6 +355,68 @@ def resample(rng, mod, v, tries=4):
     return out
 
 
+def own_prefix_numbers(cc, mod, pool, budget=12000):
+    """national numbers (canonical, as the member validator returns them) that themselves begin with the letters of
+    the country code: built from valid numbers by overwriting the first two characters and repairing up to two
+    other positions by search.  The wrapper decides by text (`startswith(cc)`) whether a prefix is present."""
+    out, spent = [], 0
+    for v in pool[:4]:
+        c = E.call(mod.validate, v)
+        if c.kind != 'ok' or not isinstance(c.value, str) or len(c.value) < 5:
+            continue
+        z = cc + c.value[2:]
+        ok = lambda t: E.call(mod.validate, cc + t).kind == 'ok' and E.call(mod.validate, cc + t).value == t   # noqa: E731
+        if ok(z):
+            out.append(z)
+            continue
+        alpha = lambda ch: '0123456789' if ch.isdigit() else 'ABCDEFGHIJKLMNOPQRSTUVWXYZ'   # noqa: E731
+        pos = list(range(2, len(z)))
+        found = None
+        for i in pos:
+            for a in alpha(z[i]):
+                spent += 1
+                t = z[:i] + a + z[i + 1:]
+                if ok(t):
+                    found = t
+                    break
+            if found:
+                break
+        if not found:
+            for i in pos:
+                for j in pos:
+                    if j <= i or found or spent > budget:
+                        continue
+                    for a in alpha(z[i]):
+                        for b in alpha(z[j]):
+                            spent += 1
+                            t = z[:i] + a + z[i + 1:j] + b + z[j + 1:]
+                            if ok(t):
+                                found = t
+                                break
+                        if found:
+                            break
+        if found:
+            out.append(found)
+        if spent > budget:
+            break
+    return out
+
+
+def check_own_prefix(ctx, cc, n):
+    """n is a national number starting with the letters cc; cc + n is its prefixed spelling"""
+    vat = M('eu.vat')
+    s = cc + n
+    wo = E.call(vat.validate, s)
+    ctx.tick('relation:eu.vat-own-prefix-number', 'cc:' + cc)
+    ctx.nontriv('own|' + s)
+    if wo.kind != 'ok' or wo.value != s:
+        ctx.fail('stdnum.eu.vat', 'validate', [s],
+                 'eu.vat.validate %s for the national number %r (accepted by the member validator) written with its prefix' % (wo.show(), n),
+                 'prefix + national number (%r)' % s,
+                 E.value_site('stdnum.eu.vat', 'validate', 'result-carries-prefix[national number starts with the country code]'),
+                 'result-carries-prefix', cc=cc, body=common.describe(n), check='own')
+
+
 def variants(rng, v, nmut):
     """the number itself, decorations and single-edit neighbours"""
     out = [v, v.lower(), v.upper(), ' ' + v + ' ', v + '\n', ' '.join(v), '-'.join(v[i:i + 3] for i in range(0, len(v), 3)),
@@ -465,6 +531,9 @@ def _worker(task):
                     for y in variants(rng, v, nmut):
                         check_vatin_eu(ctx, y)
                 return col.dump()
+            if idx == 0 and cc in EU_MEMBERS:
+                for n in own_prefix_numbers(cc, mod, valid):
+                    check_own_prefix(ctx, cc, n)
             foreign = []
             for other in sorted(EU_MEMBERS):
                 if other != cc:
@@ -574,6 +643,140 @@ def iban_countries():
     return sorted(set(p[1] for p in iban._ibandb.prefixes if len(p[1]) == 2))
 
 
+
+# ----------------------------------------------------------------------------- histories (fresh interpreters)
+# The wrappers memoise what they resolve per country code (eu.vat._country_modules, vatin._country_modules,
+# iban._country_modules) and util.get_cc_module() imports on demand.  The relations of C09 are stated for every
+# input, so they must not depend on which numbers were handled before: a verdict that changes with the history
+# disagrees with the constituent in one of the two runs.  Every ordered pair of calls of a country family is run
+# in a fresh interpreter that imports nothing but what the calls import themselves, and each outcome is compared
+# with the outcome of the same call alone in a fresh interpreter.
+
+CHILD = r"""
+import sys, json, importlib
+steps = json.loads(sys.stdin.read())
+out = []
+for mod, fn, args in steps:
+    try:
+        r = getattr(importlib.import_module(mod), fn)(*args)
+        out.append(['ok', sorted(r) if isinstance(r, list) else r if isinstance(r, (str, bool, type(None))) else repr(r)])
+    except Exception as e:
+        from stdnum.exceptions import ValidationError
+        out.append(['verr' if isinstance(e, ValidationError) else 'exc', type(e).__name__])
+sys.stdout.write(json.dumps(out))
+"""
+
+
+def run_child(steps):
+    env = dict(os.environ, PYTHONPATH=common.REPO)
+    env.pop('PYTHONSTARTUP', None)
+    try:
+        p = subprocess.run([sys.executable, '-c', CHILD], input=json.dumps(steps),
+                           capture_output=True, text=True, timeout=120, env=env, cwd='/')
+        return json.loads(p.stdout)
+    except (subprocess.TimeoutExpired, ValueError):
+        return None
+
+
+def _child_task(steps):
+    return run_child(steps)
+
+
+ALIAS_PAIRS = {'XI': 'GB', 'GB': 'XI', 'EL': 'GR', 'GR': 'EL'}
+
+
+def history_families(rng, tier):
+    """{family name: [call, ...]}, call = [module, function, [args]]"""
+    fams = {}
+    nat_iban = national_iban_modules()
+    ibans = {}
+    for x in common.valid_numbers('stdnum.iban'):
+        ibans.setdefault(x.strip().upper()[:2], []).append(x)
+    for cc in sorted(set(EU_MEMBERS) | set(EU_ALIASES)):
+        member = EU_MEMBERS.get(cc) or EU_ALIASES.get(cc)
+        pool = [y for y in pool_for('stdnum.' + member, wrapper_bodies(cc)) if trimmed(y)]
+        if not pool:
+            continue
+        y = pool[0]
+        body = y if not starts_with_own_prefix(cc, y) else ''.join(ch for ch in y if ch.isalnum())[2:]
+        calls = [['stdnum.eu.vat', 'validate', [cc + body]], ['stdnum.vatin', 'validate', [cc + body]],
+                 ['stdnum.eu.vat', 'guess_country', [body]], ['stdnum.eu.vat', 'compact', [cc + body]]]
+        other = ALIAS_PAIRS.get(cc)
+        if other:
+            calls += [['stdnum.eu.vat', 'validate', [other + body]], ['stdnum.vatin', 'validate', [other + body]]]
+        # the country code without a member state spelling (national code used as a prefix, lower case)
+        calls.append(['stdnum.eu.vat', 'validate', [cc.lower() + body]])
+        key = 'GR' if cc == 'EL' else ('GB' if cc == 'XI' else cc)
+        for x in ibans.get(key, [])[:1]:
+            calls.append(['stdnum.iban', 'validate', [x]])
+        if key in nat_iban:
+            bad = [x for x in iban_inputs(rng, key, True) if E.call(M('iban').validate, x, check_country=False).kind == 'ok' and
+                   E.call(nat_iban[key].validate, x).kind == 'verr']
+            for x in bad[:2]:
+                calls.append(['stdnum.iban', 'validate', [x]])
+        fams[cc] = calls
+    for cc in sorted(set(nat_iban) - set(EU_MEMBERS)):
+        calls = []
+        for w in ('stdnum.vatin',):
+            for x in common.valid_numbers('stdnum.vatin'):
+                if x.strip().upper().startswith(cc):
+                    calls.append([w, 'validate', [x]])
+                    break
+        good = [x for x in iban_inputs(rng, cc, True) if E.call(M('iban').validate, x).kind == 'ok'][:1]
+        bad = [x for x in iban_inputs(rng, cc, True) if E.call(M('iban').validate, x, check_country=False).kind == 'ok' and
+               E.call(nat_iban[cc].validate, x).kind == 'verr'][:2]
+        for x in good + bad:
+            calls.append(['stdnum.iban', 'validate', [x]])
+        if len(calls) >= 2:
+            fams[cc + '*'] = calls
+    return fams
+
+
+def history_stage(seed, tier):
+    rng = random.Random(seed * 7919 + 13)
+    col = E.Collector()
+    fams = history_families(rng, tier)
+    singles, seqs = {}, []
+    for name, calls in sorted(fams.items()):
+        for c in calls:
+            singles[json.dumps(c)] = c
+        pairs = [(a, b) for a in calls for b in calls if a is not b]
+        if tier == 'quick' and len(pairs) > 40:
+            rng.shuffle(pairs)
+            keep = [pr for pr in pairs if pr[0][0] != pr[1][0] or pr[0][2][0][:2].upper() != pr[1][2][0][:2].upper()]
+            pairs = (keep + [pr for pr in pairs if pr not in keep])[:40]
+        for a, b in pairs:
+            seqs.append((name, [a, b]))
+        if tier != 'quick':
+            for _ in range(12):
+                k = rng.randrange(3, min(6, len(calls)) + 1) if len(calls) >= 3 else len(calls)
+                seqs.append((name, rng.sample(calls, k)))
+    keys = sorted(singles)
+    ref = dict(zip(keys, E.pmap(_child_task, [[singles[k]] for k in keys])))
+    outs = E.pmap(_child_task, [sq for _, sq in seqs])
+    for (name, sq), out in zip(seqs, outs):
+        if out is None:
+            col.count('history:child-failed')
+            continue
+        for i, (c, o) in enumerate(zip(sq, out)):
+            r = ref.get(json.dumps(c))
+            col.tick('relation:history-independent', 'family:' + name)
+            if r is None or not r:
+                continue
+            if o[0] == 'ok' or r[0][0] == 'ok':
+                col.nontriv('hist|%s|%s' % (json.dumps(sq[:i]), json.dumps(c)))
+            if o != r[0] and i > 0:
+                first = sq[0]
+                col.fail(E.mkcase(c[0], c[1], c[2], '%s alone in a fresh interpreter gives %s; after %s it gives %s' % (
+                    '%s.%s(%r)' % (c[0], c[1], c[2][0]), r[0], ', '.join('%s.%s(%r)' % (x[0], x[1], x[2][0]) for x in sq[:i]), o),
+                    'the same outcome whatever was validated before (the constituents do not change)',
+                    E.value_site(c[0], c[1], 'verdict-depends-on-earlier-call[%s.%s]' % (first[0].replace('stdnum.', ''), first[1])),
+                    'history-independent', today=TODAY, check='history', history=sq[:i + 1]))
+                break
+    col.sample({'relation': 'history-independent', 'families': len(fams), 'sequences': len(seqs), 'example': seqs[0][1] if seqs else None})
+    return col.dump()
+
+
 def search(seed, tier):
     tasks = []
     for cc in sorted(EU_MEMBERS) + sorted(EU_ALIASES) + sorted(OSS_PREFIXES):
@@ -590,6 +793,8 @@ def search(seed, tier):
     col = E.Collector()
     for d in E.pmap(_worker, tasks):
         col.merge(d)
+    with common.frozen_today(TODAY):
+        col.merge(history_stage(seed, tier))
     return col.result(RULE)
 
 
@@ -597,9 +802,17 @@ def replay(case):
     ctx = Ctx(None)
     args = [common.rebuild(a) for a in case['args']]
     chk = case.get('check')
+    if chk == 'history':
+        sq = case['history']
+        out, ref = run_child(sq), run_child([sq[-1]])
+        if out is None or ref is None or out[-1] == ref[0]:
+            return None
+        return dict(case, observed='alone: %s; after the recorded history: %s' % (ref[0], out[-1]))
     with common.frozen_today(TODAY):
         if chk == 'eu':
             check_eu(ctx, case['cc'], case['prefix'], common.rebuild(case['body']))
+        elif chk == 'own':
+            check_own_prefix(ctx, case['cc'], common.rebuild(case['body']))
         elif chk == 'vatin_eu':
             check_vatin_eu(ctx, args[0])
         elif chk == 'guess':
